@@ -474,7 +474,9 @@ class BaseParser:
         # 1. look every key of the data up once and gather the values given to each field,
         # by the alias they came under (a field may be given under several of its aliases)
         for key, value in data.items():
-            key = str(key)
+            if not isinstance(key, str):
+                # (a str subclass is a key as it is, whatever its own __str__ says)
+                key = str(key)
             field = self.get_field(key)
             if not field:
                 add_value = self.parse_addition(key, value, context=context)
@@ -582,7 +584,8 @@ class BaseParser:
             # (keys are looked up, and kept, as strings: as data_first_parse does)
             _data = {}
             for k, v in data.items():
-                k = str(k)
+                if not isinstance(k, str):
+                    k = str(k)
                 if k.lower() in self.case_insensitive_names:
                     _data[k.lower()] = v
                 else:
